@@ -47,7 +47,12 @@ META = dict(
          "CronSpec.to_cron); instants uniform 2015-2035 with the second of the minute pinned to 0 / 59.999999 / interior in "
          "a third of them (thorough adds minute-exhaustive sweeps of 12 day-long windows around DST transitions, a leap day "
          "and a year end); expressions aimed at the shifted minute (due), one field off (near miss) or random; non-trivial "
-         "iff the expression is not all stars and the offset is not none; distinct by (expression, instant, offset)",
+         "iff the expression is not all stars and the offset is not none; distinct by (expression, instant, offset); "
+         "plus back-to-back groups (one case = up to 24 evaluations run in ONE driver process in order, time never "
+         "backwards): one or two cron strings x 2-7 offsets (none / timedeltas / IANA zones, incl. the timedelta equal to "
+         "a zone's shift) x 1-3 ticks (same UTC minute at increasing seconds in a random order of the schedules; then "
+         "the next minute, the instant shifted by one of the offsets, +1 h / day / week), expression aimed at one "
+         "(tick, offset) pair, every element judged on its own",
     trusted_base=["model: coq/theories/Cron.v (hand-written transcription of get_task_delay's cron branch and of pycron 3.3.0 "
                   "is_now/_parse_arg on the numeric grammar) and coq/theories/Civil.v (days-to-civil; checked against CPython "
                   "datetime fields on every case)",
@@ -375,6 +380,83 @@ def gen_allzones(r, nzones, per_zone, around_transitions):
     return cases
 
 
+_TR = {}
+
+
+def transitions_cached(zone, year):
+    if (zone, year) not in _TR:
+        _TR[zone, year] = transitions(zone, year)
+    return _TR[zone, year]
+
+
+GROUP_CAP = 24
+
+
+def gen_group(r):
+    """one back-to-back group = what a long-lived scheduler process does: a few schedules that share one or two cron
+    strings but differ in cron_offset (none / timedeltas / IANA zones), all evaluated tick after tick in ONE process.
+    Time never runs backwards inside a group; within a tick (one UTC minute) the schedules come in a random order at
+    increasing seconds.  Later ticks revisit the same (expression, offset) at other instants: the next minute, the
+    instant whose UTC clock shows what an offset's wall clock showed at the first tick, +1 h / +1 day / +1 week.
+    The expressions are aimed at the wall clock of ONE (tick, offset) pair, so the verdict differs between the offsets
+    of a tick: whatever the code keeps between calls (a memoised verdict, a reused datetime, ...) shows as a wrong
+    element.  Every element is an ordinary case judged on its own (the statement and the model are stateless)."""
+    zfirst = []
+    if r.random() < .25:
+        z = r.choice(DST_ZONES)
+        T = r.choice(transitions_cached(z, r.choice([2019, 2024, 2026, 2027, 2031]))[:2])
+        base, zfirst = T + r.randrange(-3 * HOUR, 3 * HOUR), [z]
+    else:
+        base = r.randrange(Y2015, Y2035)
+    base = base // MIN * MIN
+    zs = zfirst + r.sample([z for z in ZONES if z not in zfirst], r.choice([1, 2, 2, 3]))
+    offs = [{"kind": "zone", "zone": z} for z in zs]
+    if r.random() < .8:
+        offs.append(None)
+    for _ in range(r.choice([0, 1, 1, 2])):
+        k = r.random()
+        if k < .4:     # the timedelta equal to a zone's shift at the first tick: the same wall clock by the other route
+            us = shifted(base, r.choice(offs[:len(zs)]))[1]
+        elif k < .5:
+            us = 0
+        else:
+            us = r.choice([r.randrange(-26 * HOUR, 26 * HOUR + 1), r.choice(TD_GRID), r.randrange(-26 * 60, 26 * 60 + 1) * MIN])
+        offs.append({"kind": "td", "us": us})
+    offs = [o for i, o in enumerate(offs) if o not in offs[:i]]
+    if len(offs) < 2:
+        offs.append(None)
+    ticks = [base]
+    for _ in range(r.choice([0, 1, 1, 2])):
+        k = r.random()
+        sh = shifted(base, r.choice(offs))[1] // MIN * MIN
+        if k < .4 and sh != 0:
+            ticks.append(base + sh * r.choice([1, 1, -1]))
+        elif k < .6:
+            ticks.append(base + MIN)
+        elif k < .9:
+            ticks.append(base + r.choice([HOUR, DAY, 7 * DAY]))
+        else:
+            ticks.append(base + r.randrange(1, 3 * 1440) * MIN)
+    ticks = sorted(set(ticks))
+    exprs = []
+    for _ in range(r.choice([1, 1, 2])):
+        aim = shifted(r.choice(ticks) + r.randrange(MIN), r.choice(offs))[0]
+        mode = r.choices(["pin", "due", "near", "rand"], [.45, .3, .15, .1])[0]
+        exprs.append((pin_expr(pyfields(aim)), mode) if mode == "pin" else gen_expr(r, pyfields(aim), mode))
+    per_tick = max(2, GROUP_CAP // len(ticks))
+    elems = []
+    for t in ticks:
+        pairs = [(e, m, o) for e, m in exprs for o in offs]
+        r.shuffle(pairs)
+        pairs = pairs[:per_tick]
+        secs = sorted(r.sample(range(MIN), len(pairs)))
+        if r.random() < .3:
+            secs[0], secs[-1] = 0, MIN - 1
+        for (e, m, o), s in zip(pairs, secs):
+            elems.append(finish_case(r, dict(now=t + s, off=o), e, "group:" + m))
+    return dict(group=elems, mode="group")
+
+
 def nontrivial(c):
     return c["off"] is not None and any(f[0] != "star" for f in c["expr"])
 
@@ -470,10 +552,55 @@ def branch_counts(rep, c, pf, due):
     rep.count("model:dayrule:%s:dom=%d,dow=%d" % (rule, a, b))
 
 
+GROUP_NOTE = " [element of a back-to-back group evaluated in one process]"
+
+
+def flatten(cases, obs):
+    """(element, its observation, the case to record when it fails, in a group?) - a group's elements are judged one
+    by one; the recorded case is the group up to and including the failing element (what was evaluated before it in the
+    same process is part of the input)"""
+    out = []
+    for c, o in zip(cases, obs):
+        if "group" not in c:
+            out.append((c, o, c, False))
+            continue
+        eo = o["group"] if "group" in o else [o] * len(c["group"])
+        for k, (e, x) in enumerate(zip(c["group"], eo)):
+            out.append((e, x, dict(group=c["group"][:k + 1], at=k, mode="group"), True))
+    return out
+
+
+def group_counts(rep, g, wants):
+    """how much one group revisits: (cron string, UTC minute) keys seen under several shifts / with both verdicts,
+    (cron string, offset) pairs seen in several minutes"""
+    rep.count("group:groups")
+    rep.count("group:elements", len(g))
+    by_min, by_off = {}, {}
+    for e, w in zip(g, wants):
+        by_min.setdefault((e["cron"], e["now"] // MIN), []).append((shifted(e["now"], e["off"])[1], e["off"], w))
+        by_off.setdefault((e["cron"], C.canon(e["off"])), set()).add(e["now"] // MIN)
+    rep.count("group:ticks=%d" % len({e["now"] // MIN for e in g}))
+    rep.count("group:offsets=%d" % len({C.canon(e["off"]) for e in g}))
+    rep.count("group:cron-strings=%d" % len({e["cron"] for e in g}))
+    for v in by_min.values():
+        if len({sh for sh, _, _ in v}) > 1:
+            rep.count("group:revisit:(cron,minute) under several shifts")
+        if len({w for _, _, w in v if w is not None}) > 1:
+            rep.count("group:revisit:(cron,minute) due under one offset, not due under another")
+        if len({w for _, off, w in v if w is not None and (off is None or off["kind"] == "zone")}) > 1:
+            rep.count("group:revisit:(cron,minute) verdict differs between none/zone offsets")
+    for v in by_off.values():
+        if len(v) > 1:
+            rep.count("group:revisit:(cron,offset) in several minutes")
+
+
 def explore(ctx, rep, cases, label, judge=True):
     obs = C.run_driver(ctx, "cron_driver", cases, nproc=min(C.NPROC, 1 + len(cases) // 250))
     lits, keep = [], []
-    for c, o in zip(cases, obs):
+    wants = {}
+    flat = flatten(cases, obs)
+    for idx, (c, o, rec, ing) in enumerate(flat):
+        note = GROUP_NOTE if ing else ""
         rep.case(c, nontrivial(c))
         off = c["off"]
         rep.count("offset:" + ("none" if off is None else off["kind"]))
@@ -482,10 +609,10 @@ def explore(ctx, rep, cases, label, judge=True):
         rep.count("second-of-minute:" + ("0" if c["now"] % MIN == 0 else "59.999999" if c["now"] % MIN == MIN - 1
                                          else "interior"))
         if "_crash" in o:
-            rep.fail("cron driver crashed", c, observed=o["_crash"])
+            rep.fail("cron driver crashed" + note, rec, observed=o["_crash"])
             continue
         if "raised" in o:
-            rep.fail("get_task_delay raised on an expression of the numeric grammar", c, observed=o,
+            rep.fail("get_task_delay raised on an expression of the numeric grammar" + note, rec, observed=o,
                      sig=dict(kind="raised"))
             continue
         loc, sh = shifted(c["now"], off)
@@ -501,28 +628,37 @@ def explore(ctx, rep, cases, label, judge=True):
         carried = (o["offtype"] == "NoneType") if off is None else (o.get("off_us") == off["us"]) if off["kind"] == "td" \
             else (o.get("off_zone") == off["zone"])
         if not carried:
-            rep.fail("ScheduledTask / CronSpec did not carry the cron offset unchanged", c, observed=o,
+            rep.fail("ScheduledTask / CronSpec did not carry the cron offset unchanged" + note, rec, observed=o,
                      sig=dict(kind="offset-carried"))
             continue
         want = oracle_due(c["cron"], pf)
+        wants[idx] = want
         rep.count("outcome:" + ("due" if d == 0 else "not-due"))
         branch_counts(rep, c, pf, want)
         if o["cron"] != c["cron"]:
-            rep.fail("CronSpec.to_cron does not render 'minutes hours days months weekdays'", c, observed=o["cron"],
+            rep.fail("CronSpec.to_cron does not render 'minutes hours days months weekdays'" + note, rec, observed=o["cron"],
                      expected=c["cron"], sig=dict(kind="to_cron"))
             continue
         if o.get("badtype"):
-            rep.fail("get_task_delay returned neither 0 nor None for a cron schedule", c, observed=d)
+            rep.fail("get_task_delay returned neither 0 nor None for a cron schedule" + note, rec, observed=d)
             continue
         if judge and ((d == 0) != want or d not in (0, None)):
             rep.fail("cron schedule %s in a minute its expression %s" % (
-                ("reported due", "does not match") if d == 0 else ("not reported due", "matches")), c,
+                ("reported due", "does not match") if d == 0 else ("not reported due", "matches")) + note, rec,
                 observed=dict(delay=d, cron=o["cron"]),
                 expected=dict(due=want, fields_minute_hour_dom_month_dow_year=pf, shift_us=sh),
                 sig=dict(kind="polarity", got_due=(d == 0), offset="none" if off is None else off["kind"],
-                         pytz_agrees_with_zoneinfo_reader=tz_agree))
+                         pytz_agrees_with_zoneinfo_reader=tz_agree, in_group=ing))
         lits.append(coq_case(c, sh, pf, d, judge))
-        keep.append(c)
+        keep.append(rec)
+    idx = 0
+    for c in cases:
+        if "group" in c:
+            n = len(c["group"])
+            group_counts(rep, c["group"], [wants.get(i) for i in range(idx, idx + n)])
+            idx += n
+        else:
+            idx += 1
     bad, fails, _ = C.coq_eval(ctx, label, COQ_HEADER, lits, COQ_BODY)
     rep.corr(label, len(lits), bad, fails, lambda i: keep[i])
     rep.traces += len(lits) - len(bad)
@@ -538,6 +674,8 @@ def run(ctx):
     r = ctx.sub_rng("gen")
     cases = [gen_case(r) for _ in range(ctx.n(2500, 40000))]
     broken = explore(ctx, rep, cases, "main")
+    rg = ctx.sub_rng("groups")
+    broken = explore(ctx, rep, [gen_group(rg) for _ in range(ctx.n(160, 2500))], "back-to-back-groups") or broken
     if ctx.quick:
         sw = gen_sweep(ctx.sub_rng("sweep"), sweep_windows(ctx.sub_rng("windows"))[:8], stride=40)
     else:
@@ -554,7 +692,8 @@ def run(ctx):
     rep.extra["due_fraction"] = round(rep.dist.get("outcome:due", 0) / max(1, n), 3)
     if (broken or any(not o["ok"] for o in rep.obligations)) and not rep.failures:
         r2 = ctx.sub_rng("search")
-        explore(ctx, rep, [gen_case(r2) for _ in range(ctx.n(30000, 200000))], "search")
+        explore(ctx, rep, [gen_case(r2) for _ in range(ctx.n(30000, 200000))] +
+                [gen_group(r2) for _ in range(ctx.n(1500, 10000))], "search")
     return rep.finish()
 
 
@@ -569,6 +708,8 @@ def replay(ctx, path):
                 rc |= replay(ctx, os.path.join(ctx.dir, "one.json"))
         return 1 if rc or not rec.get("first_differing_cases") else rc
     c = rec["case"] if "case" in rec else rec
+    if "group" in c:
+        return replay_group(ctx, c)
     o = C.run_driver(ctx, "cron_driver", [c], nproc=1)[0]
     print("case:", json.dumps(c))
     print("implementation:", o)
@@ -591,3 +732,34 @@ def replay(ctx, path):
     ok = (o["delay"] == 0) == want and o["delay"] in (0, None) and o["cron"] == c["cron"]
     print("holds" if ok else "VIOLATED")
     return 0 if ok and model_ok else 1
+
+
+def replay_group(ctx, g):
+    """the whole group again in one fresh process, every element judged on its own"""
+    o = C.run_driver(ctx, "cron_driver", [dict(group=g["group"])], nproc=1)[0]
+    obs = o["group"] if "group" in o else [o] * len(g["group"])
+    print("back-to-back group of %d evaluations in one process%s" % (
+        len(obs), "" if g.get("at") is None else " (recorded failing element: %d)" % g["at"]))
+    rc, lits = 0, []
+    for k, (c, x) in enumerate(zip(g["group"], obs)):
+        if "_crash" in x or "raised" in x:
+            print("[%d] %s: VIOLATED (raised) %s" % (k, json.dumps(dict(now=c["now"], off=c["off"], cron=c["cron"])), x))
+            rc = 1
+            continue
+        loc, sh = shifted(c["now"], c["off"])
+        pf = pyfields(loc)
+        want = oracle_due(c["cron"], pf)
+        ok = (x["delay"] == 0) == want and x["delay"] in (0, None) and x["cron"] == c["cron"]
+        print("[%d] now=%d (%s UTC) off=%s cron=%r: wall clock %s, expected %s, got %s: %s" % (
+            k, c["now"], (EP + dt.timedelta(microseconds=c["now"])).strftime("%Y-%m-%dT%H:%M:%S.%f"), json.dumps(c["off"]),
+            c["cron"], loc.isoformat(), "due (0)" if want else "not due (None)", x["delay"], "holds" if ok else "VIOLATED"))
+        rc |= 0 if ok else 1
+        if c.get("expr") is not None and not x.get("badtype"):
+            lits.append(coq_case(c, sh, pf, x["delay"], True))
+    if lits:
+        bad, fails, _ = C.coq_eval(ctx, "replay", COQ_HEADER, lits, COQ_BODY)
+        print("model (Coq, cron_delay = implementation and C13_check, element-wise):", "agrees" if not bad and not fails else
+              "DIFFERS at %r %s" % (bad, "; ".join(fails)))
+        rc |= 1 if bad or fails else 0
+    print("holds" if rc == 0 else "VIOLATED")
+    return rc
